@@ -101,6 +101,19 @@ func propStream(name string, r *Rand, n int, o *Out) bool {
 	case "C19":
 		stateOut = o
 		streamCorpusChecked(nil, "C19")
+		// every host of the pools, as a special and as a non-special host, through parse, the hostname setter, resolve and
+		// clone: the derived accessors (IsIPv4 / IsIPv6 / DecodedPort …) on hosts that only LOOK like addresses
+		for _, hs := range append(append([]string{}, weirdHosts...), "1.2.3.4", "0x7f.1", "1.2.3", "256.1.1.1", "[::1]", "[1:2::3.4.5.6]", "1.2.3.4.5", "999", "1.2.3.4:80", "h:65535", "h:0") {
+			h := &Hist{Check: map[string]bool{"C19": true}}
+			h.ParsePkg("http://" + hs + "/p")
+			h.ParsePkg("sc://" + hs + "/p")
+			if k := h.ParsePkg("https://start.example:8/x?q#f"); k >= 0 {
+				h.Set(k, 4, hs)
+				h.Resolve(k, "../y")
+				h.Clone(k)
+				h.Set(k, 3, hs)
+			}
+		}
 		for i := 0; i < n; i++ {
 			ho := defaultHist("C19")
 			ho.Clone = true
